@@ -341,9 +341,13 @@ class MasterWorld:
             if changed and path not in paths:
                 self.undelivered.append((path, list(current)))
             if path == z.EVENTS:
-                self._apply_pending_truth()
+                # only the state events that were in the processed batch
+                self._apply_pending_truth(set(kids))
         for path in paths:
-            self._process(path, self.children(path))
+            kids_now = self.children(path)
+            self._process(path, kids_now)
+            if path == z.EVENTS:
+                self._apply_pending_truth(set(kids_now))
 
     def _process(self, path, kids):
         m = self.master
@@ -469,12 +473,13 @@ class MasterWorld:
                 apps = placed[mark:mark + 1]
                 if state == 'frozen':
                     self.marked.update((name, a) for a in apps)
+            ev_before = set(self.children(z.EVENTS))
             masterapi.update_server_state(admin, name, state, apps)
+            ev_new = sorted(set(self.children(z.EVENTS)) - ev_before)
+            # the freeze truth changes when the master processes THIS event
+            self.pending_truth.append((name, state,
+                                       ev_new[0] if ev_new else None))
             self.deliver(z.EVENTS)
-            # the freeze truth changes when the master processes the event
-            self.pending_truth.append((name, state))
-            if not self.late:
-                self._apply_pending_truth()
         elif kind == 'bl':
             self.bl_idx = body[1]
             zkutils.put(admin, z.BLACKEDOUT_APPS, cfg['blacklists'][body[1]])
@@ -646,13 +651,20 @@ class MasterWorld:
                     self.truth[name] = 'down'
         self._track_states()
 
-    def _apply_pending_truth(self):
-        for name, state in self.pending_truth:
+    def _apply_pending_truth(self, processed=None):
+        """processed: names of the /events nodes the master has just handled
+        (None: everything stored, e.g. at a master start)."""
+        rest = []
+        for name, state, evnode in self.pending_truth:
+            if processed is not None and evnode is not None and \
+                    evnode not in processed:
+                rest.append((name, state, evnode))
+                continue
             if state == 'frozen':
                 self.truth[name] = 'frozen'
             else:
                 self.truth.pop(name, None)
-        self.pending_truth = []
+        self.pending_truth = rest
 
     def truth_state(self, name, model_state):
         # self.truth only changes at points where the master has processed
@@ -844,11 +856,17 @@ class MasterWorld:
                     continue
             elif kind == 'state':
                 srv = self.master.servers.get(e[1])
-                if srv is None or srv.state.value == e[2]:
+                if srv is None:
+                    # the admin may address a server the master has not
+                    # loaded yet (its 'servers' event is still outstanding)
+                    if not (e[1] in known and e[3] < 0 and any(
+                            p == z.EVENTS for p, _k in self.undelivered)):
+                        continue
+                elif srv.state.value == e[2]:
                     continue
                 if e[1] not in present:
                     continue
-                if e[3] >= len(srv.apps):
+                if srv is not None and e[3] >= len(srv.apps):
                     continue
             elif kind == 'run+':
                 if self._startable(e[1]) is None:
@@ -945,7 +963,9 @@ class MasterWorld:
             tuple(self.children(z.CELL)),
             tuple(sorted(self.children(z.BLACKEDOUT_SERVERS))),
             tuple(sorted(self.truth.items())), self.bl_idx,
-            tuple(self.pending_truth), tuple(sorted(self.api_deleted)),
+            tuple((n_, s_, ren(e_) if e_ else None)
+                  for n_, s_, e_ in self.pending_truth),
+            tuple(sorted(self.api_deleted)),
             tuple(sorted(ren(n) for n in self.children(z.FINISHED))),
             (tree.find(z.BLACKEDOUT_APPS).data
              if tree.find(z.BLACKEDOUT_APPS) else None),
